@@ -124,6 +124,10 @@ var nestedExprs = []string{
 	"((groups)[0].items)[1].n", "((groups[0]).items[1]).n", "(((groups)))[0].name", "groups[0].items[1:][0].v", "groups[0].items[1:].v", "groups[*].items[0][1:]", "rows[0][1:][0]", "rows[1][0:2].abs(@)", "groups[1].rows[0][1:]",
 	"groups[*].items[*].n | [*] | [0] | [1:] | length(@)", "groups | [*].items | [*][*].n | [0] | [0]", "groups[*].name | sort(@) | [0] | length(@) | [@, @] | [0]", "groups | missing | groups",
 	"[!!(groups[0].name < `1`), !!(groups[0].items[0].n < `1`), !!(missing < missing)]", "groups[*].[!!(name < `1`), !(items[0].n >= `3`)]",
+	// a pipe ends the projection on its left: the right-hand side sees the list, nulls dropped already
+	"`[1,null,2]`[*] | [*].type(@)", "`[1,null,2]`[:] | [*].type(@)", "`[[1],null,[2]]`[] | [*].type(@)", "`[1,null]`[*] | [*].length(@)", "`[{\"a\":1},null]`[*] | [*].not_null(a, `0`)", "(`[1,null,2]`[*]) | ([*].type(@))", "`[1,null,2]`[?@ || !@] | [*].type(@)", "groups[*].missing | [*].type(@)", "[groups[0], missing][*] | [*].type(@)",
+	// a call that is never evaluated is never an error: unknown names, wrong arities and types in dead branches
+	"`1` || nosuch(@)", "missing && nosuch(@, @)", "`[]`[*].nosuch(@)", "groups[?`false`].nosuch(@)", "`1` || abs()", "missing && abs(`\"a\"`)", "[`1` || nosuch(@), groups[0].name]", "`[]`[?size(@) > `1`]", "not_null(`1` || nosuch(@))", "groups[0].name || lenght(@)",
 	// one list at the head of several flattens: each builds its own result
 	"[[rows[0], groups[0].name][], [rows[0], groups[1].name][]]", "groups[*].[`[0,0,0]`, name][]", "groups[*].{r: [`[0,0,0]`, name][]}", "map(&[`[1,2,3]`, @][], groups[*].name)", "[[rows[0], `1`][], [rows[0], `2`][]]",
 	"groups[*].[`[0,0,0,0,0]`, name, name][]", "rows[*].[@, `0`][]", "[rows[*].[@, `0`][], rows]", "groups[*].[rows[0], name][] | [*][-1]", "[groups[*].[`[[1],[2],[3]]`, [name]][], `[[1],[2],[3]]`]",
